@@ -66,12 +66,20 @@ def constructs(prog):
     return out
 
 
-def reduced_key(prog, still_fails, budget=120):
-    """Reduce and return (key-suffix, reduced Program)."""
-    try:
-        small = reducer.reduce(prog, still_fails, budget=budget)
-    except Exception:
-        small = prog
+_REDUCTIONS = [0]
+MAX_REDUCTIONS = 3
+
+
+def reduced_key(prog, still_fails, budget=80):
+    """Reduce and return (key-suffix, reduced Program).  Only the first few failing programs of a run are reduced
+    (a broken engine can make hundreds of programs fail; reducing each would take hours)."""
+    small = prog
+    if _REDUCTIONS[0] < MAX_REDUCTIONS:
+        _REDUCTIONS[0] += 1
+        try:
+            small = reducer.reduce(prog, still_fails, budget=budget)
+        except Exception:
+            small = prog
     c = sorted(constructs(small))
     return ",".join(c)[:200], small
 
